@@ -7,19 +7,26 @@ lost acks, results, send failures, cancellation, close and every timing of the (
 -/
 import TdModel.Lemmas.C25Env
 import TdModel.Lemmas.C25Stable
-import TdModel.Gen.C25
+import TdModel.Lemmas.C24Ack
+import TdModel.Model.C25Cfg
 
 namespace TdModel.C25
 open TdModel.Rpc
 
-/-- The engine as it is in the source (presence of the two repairs is regenerated from
-`rpc/engine.go`); retry limit and interval are run-time options. -/
-def cfg (maxRetries interval : Nat) : Cfg :=
-  { guard := Facts.C25.guardPresent, recheck := Facts.C25.recheckPresent, maxRetries := maxRetries, interval := interval }
+/-! `C25.cfg maxRetries interval` (`Model/C25Cfg.lean`) is the engine as it is in the source: the raw
+facts regenerated from `rpc/engine.go` / `rpc/ack.go`, interpreted by `Cfg.ofRaw`. -/
 
-/-- The timer branch re-checks `ackChan` and `ctx.Err()` before re-sending. -/
-theorem recheck_in_source : Facts.C25.recheckPresent = true := by decide
-theorem guard_in_source : Facts.C25.guardPresent = true := by decide
+theorem source_understood : raw.understood = true := by decide
+
+/-- **The source has the shape the theorems are about** (`Cfg.std`): in particular the timer branch
+re-checks `ackChan` and `ctx.Err()` before re-sending, the retry loop selects on exactly context /
+close-context / ack channel / timer, `retryUntilAck` unregisters its ack channel when it returns, and
+`NotifyAcks` closes and unregisters the channel of every known id and *continues* after an unknown one. -/
+theorem source_shape (mr iv : Nat) : (cfg mr iv).std = true := by
+  rw [cfg, Cfg.ofRaw_std]; decide
+
+theorem recheck_in_source (mr iv : Nat) : (cfg mr iv).std = true := source_shape mr iv
+theorem guard_in_source (mr iv : Nat) : (cfg mr iv).std = true := source_shape mr iv
 
 /-- The retry loop selects on exactly: its context, the engine's close context, the ack channel, the timer. -/
 theorem loop_select_in_source :
@@ -36,7 +43,7 @@ body registered by the call with that id; the log holds exactly the transmission
 theorem resend_same_identity (mr iv : Nat) (hm : 1 ≤ mr) {s : State} (hr : Reachable (cfg mr iv) s) :
     (∀ j q b, (j, q, b) ∈ s.log → ∃ c, s.calls j = some c ∧ c.seq = q ∧ c.body = b) ∧
     (∀ i c, s.calls i = some c → logCount s.log i = c.sends) := by
-  have h := reachable_retry (cfg := cfg mr iv) guard_in_source hm hr
+  have h := reachable_retry (cfg := cfg mr iv) (guard_in_source mr iv) hm hr
   refine ⟨fun j q b hmem => ?_, h.log_count⟩
   cases hc : s.calls j with
   | none => exact absurd hc (h.log_ex j q b hmem)
@@ -46,7 +53,7 @@ theorem resend_same_identity (mr iv : Nat) (hm : 1 ≤ mr) {s : State} (hr : Rea
 theorem identity_immutable (mr iv : Nat) {s s' : State} {a : Action} {i : Nat} {c : Call}
     (hc : s.calls i = some c) (hs : step (cfg mr iv) s a = some s') :
     ∃ c', s'.calls i = some c' ∧ c'.seq = c.seq ∧ c'.body = c.body := by
-  obtain ⟨hex, hk⟩ := keeps_step (cfg := cfg mr iv) recheck_in_source hc hs
+  obtain ⟨hex, hk⟩ := keeps_step (cfg := cfg mr iv) (recheck_in_source mr iv) hc hs
   cases hc' : s'.calls i with
   | none => exact absurd hc' hex
   | some c' => exact ⟨c', rfl, (hk c' hc').2.2.2.1, (hk c' hc').2.2.2.2.1⟩
@@ -55,11 +62,11 @@ theorem identity_immutable (mr iv : Nat) {s s' : State} {a : Action} {i : Nat} {
 every retry limit `≥ 1`. -/
 theorem sends_le (mr iv : Nat) (hm : 1 ≤ mr) {s : State} (hr : Reachable (cfg mr iv) s)
     {i : Nat} {c : Call} (hc : s.calls i = some c) : c.sends ≤ 1 + mr := by
-  have h := reachable_retry (cfg := cfg mr iv) guard_in_source hm hr
+  have h := reachable_retry (cfg := cfg mr iv) (guard_in_source mr iv) hm hr
   have h1 := h.count_hi i c hc
   have h2 := h.count_extra i c hc
   have h3 := h.retries_le i c hc
-  simp only [cfg] at h2 h3
+  simp only [cfg, Cfg.ofRaw] at h2 h3
   omega
 
 /-- **Retry limit exactly.**  `Do` fails with `RetryLimitReachedErr{Retries: n}` exactly when the
@@ -68,13 +75,13 @@ theorem retry_limit_iff (mr iv : Nat) (hm : 1 ≤ mr) {s : State} (hr : Reachabl
     {i : Nat} {c : Call} (hc : s.calls i = some c) :
     (∀ n, c.ret = some (.retryLimit n) → n = mr ∧ c.retries = mr ∧ c.sends = 1 + mr) ∧
     (c.retries = mr → c.ret = some (.retryLimit mr) ∨ (c.pc = .guard ∧ c.pend = .retryLimit mr)) := by
-  have h := reachable_retry (cfg := cfg mr iv) guard_in_source hm hr
+  have h := reachable_retry (cfg := cfg mr iv) (guard_in_source mr iv) hm hr
   refine ⟨fun n hn => ?_, fun hn => h.limit_out i c hc hn⟩
   obtain ⟨h1, h2⟩ := h.out_limit i c n hc (Or.inl hn)
   have h3 := h.count_hi i c hc
   have h4 := h.count_extra i c hc
   have h5 := h.count_lo i c hc
-  simp only [cfg] at h1 h2 h4
+  simp only [cfg, Cfg.ofRaw] at h1 h2 h4
   refine ⟨h1, h2, ?_⟩
   rcases h5 with h5 | ⟨_, _, h6, _⟩
   · omega
@@ -87,7 +94,7 @@ theorem no_send_after_ack_or_result (mr iv : Nat) {s s' : State} {a : Action} {i
     (hc : s.calls i = some c) (hs : step (cfg mr iv) s a = some s') :
     ∃ c', s'.calls i = some c' ∧ (c.acked = true → c'.acked = true) ∧ (c.done = true → c'.done = true) ∧
       ((c.acked = true ∨ c.done = true) → c'.sends = c.sends ∧ logCount s'.log i = logCount s.log i) := by
-  obtain ⟨hex, hk⟩ := keeps_step (cfg := cfg mr iv) recheck_in_source hc hs
+  obtain ⟨hex, hk⟩ := keeps_step (cfg := cfg mr iv) (recheck_in_source mr iv) hc hs
   cases hc' : s'.calls i with
   | none => exact absurd hc' hex
   | some c' =>
@@ -116,7 +123,7 @@ apart on the engine's clock: the timer branch can only run one interval after th
 theorem retransmission_spacing (mr iv : Nat) (hm : 1 ≤ mr) {s s' : State} (hr : Reachable (cfg mr iv) s)
     {i : Nat} {c : Call} (hc : s.calls i = some c)
     (hs : step (cfg mr iv) s (.loopSel i .tick) = some s') : c.sentAt + iv ≤ s.now := by
-  have h := reachable_retry (cfg := cfg mr iv) guard_in_source hm hr
+  have h := reachable_retry (cfg := cfg mr iv) (guard_in_source mr iv) hm hr
   simp only [step, stepLoop, hc] at hs
   split at hs
   · simp at hs
@@ -135,19 +142,47 @@ theorem timer_fires_and_resends (mr iv d : Nat) {s : State} {i t : Nat} {c : Cal
           ∃ c'', s''.calls i = some c'' ∧ c''.sends = c.sends + 1 ∧ c''.pc = .sendR) := by
   refine ⟨Call.tickTimer (s.now + d) c, by simp [stepAdvance, hc], by simp [Call.tickTimer, hd, ht], ?_⟩
   intro hpc ha hx hdn
-  simp [step, stepLoop, stepAdvance, hc, Call.tickTimer, hd, ht, hpc, ha, hx, hdn, Call.retC, setCall]
+  simp [step, stepLoop, stepAdvance, hc, Call.tickTimer, hd, ht, hpc, ha, hx, hdn, Call.retC, setCall,
+    Cfg.std_all (source_shape mr iv)]
+
+def ackedAndSends (s : Option State) : Option (Bool × Nat) :=
+  s.bind (fun s => (s.calls 1).map (fun c => (c.acked, c.sends)))
+
+/-- **A batch acknowledges every pending id in it.**  `NotifyAcks(ids)` in any reachable state: every
+id of the batch that has a registered waiter is acknowledged and unregistered afterwards — whatever
+else the batch contains before or after it (ids nobody waits for, ids of finished calls, repeated
+ids).  So an acknowledgement that was received is never lost inside the engine. -/
+theorem ack_batch_acks_all (mr iv : Nat) {s : State} (hr : Reachable (cfg mr iv) s) (ids : List Nat)
+    {i : Nat} (hmem : i ∈ ids) (hreg : s.ack i = true) :
+    ∃ c, (stepAck (cfg mr iv) s ids).calls i = some c ∧ c.acked = true ∧ (stepAck (cfg mr iv) s ids).ack i = false :=
+  ack_batch (source_shape mr iv) ids s (reachable_inv (source_shape mr iv) hr) i hmem hreg
+
+/-- `NotifyAcks` never closes a channel twice (no "close of closed channel" panic), for any batches. -/
+theorem acks_never_panic (mr iv : Nat) {s : State} (hr : Reachable (cfg mr iv) s) : s.panicked = false :=
+  (reachable_inv (source_shape mr iv) hr).not_panicked
+
+/-- If the loop of `NotifyAcks` stopped at an unknown id (`break` / `return` instead of `continue`), the
+pending request after it would stay unacknowledged … -/
+theorem ack_stop_counterexample :
+    ackedAndSends (run { Cfg.standard 2 3 with ackUnknown := .stop } init [.start 1 1 7, .sret 1 .ok, .ack [90, 1]])
+      = some (false, 1) ∧
+    ackedAndSends (run (cfg 2 3) init [.start 1 1 7, .sret 1 .ok, .ack [90, 1]]) = some (true, 1) := by
+  decide
+
+/-- … and without `delete(e.ack, id)` a repeated id would close the channel twice. -/
+theorem ack_nodelete_counterexample :
+    ((run { Cfg.standard 2 3 with ackDelete := false } init [.start 1 1 7, .sret 1 .ok, .ack [1, 1]]).map (·.panicked))
+      = some true := by
+  decide
 
 /-! ### The defect D14 (pinned tree): without the re-check the property is false -/
 
 /-- The engine with the guard of D13 but without the re-check in the timer branch. -/
-def cfgNoRecheck : Cfg := { guard := true, recheck := false, maxRetries := 2, interval := 3 }
+def cfgNoRecheck : Cfg := { Cfg.standard 2 3 with recheckAck := false, recheckCtx := false }
 
 /-- send; the acknowledgement arrives; the clock reaches the retry moment; the retry loop's `select`
 finds both the ack channel and the timer ready and takes the timer. -/
 def d14Trace : List Action := [.start 1 1 7, .sret 1 .ok, .ack [1], .advance 3, .loopSel 1 .tick]
-
-def ackedAndSends (s : Option State) : Option (Bool × Nat) :=
-  s.bind (fun s => (s.calls 1).map (fun c => (c.acked, c.sends)))
 
 /-- Without the re-check the acknowledged request is transmitted a second time; with it the same
 `select` choice leaves the retry loop without sending. -/
